@@ -24,6 +24,11 @@ def _cursor(alias):
     return c.connection.cursor()
 
 
+# character primary keys that look like numbers (a column wrongly typed as
+# integer would change them: '007' -> 7, '1e3' -> 1000)
+CHAR_PKS = ['007', '1e3', '0x1F', ' 42', '5.0', 'k6']
+
+
 def populate(project, profile, alias='default'):
     """Insert rows (raw SQL) into every table of `project`.  Unique columns
     get distinct values; nullable columns get NULL in the second row; FK
@@ -63,8 +68,16 @@ def populate(project, profile, alias='default'):
                         v = i + 1
                     else:
                         v = (i % n) + 1 if i % 2 == 0 else 1
+                    if v is not None:
+                        # the value of the target's primary key in that row
+                        tl, tm = a.get('to', '.').split('.', 1)
+                        target = S.get_model(project, tl, tm)
+                        tpk = S.pk_field(target) if target else None
+                        if tpk is not None and tpk['type'] == 'Char':
+                            v = CHAR_PKS[(v - 1) % len(CHAR_PKS)]
                 elif a.get('primary_key'):
-                    v = i + 1 if f['type'] != 'Char' else 'k%d' % (i + 1)
+                    v = i + 1 if f['type'] != 'Char' else \
+                        CHAR_PKS[i % len(CHAR_PKS)]
                 else:
                     dom = DOMAIN[f['type']]
                     if f['name'] in checked:
@@ -196,16 +209,24 @@ def expected_after(pre, spec_b, spec_a, step):
                                     'm2m': True, 'columns': None}
                 continue
             col = S.column_name(f)
+            ftype = f['type']
+            if ftype in ('FK', 'O2O'):
+                # the column has the type of the referenced primary key
+                tl, tm = f['attrs'].get('to', '.').split('.', 1)
+                target = S.get_model(spec_a, tl, tm)
+                tpk = S.pk_field(target) if target else None
+                if tpk is not None and tpk['type'] == 'Char':
+                    ftype = 'Char'
             if fb is None:
                 init = mj[5] if kind == 'AddField' else None
-                cols[col] = ('new', stored_form(f['type'], init))
+                cols[col] = ('new', stored_form(ftype, init))
             else:
                 old_col = S.column_name(fb)
                 if is_target and kind == 'ChangeField' and \
                         f['name'] == mj[2] and 'null' in mj[3] and \
                         not mj[3]['null'] and fb['attrs'].get('null'):
                     cols[col] = ('fill', old_col,
-                                 stored_form(f['type'], mj[4]))
+                                 stored_form(ftype, mj[4]))
                 else:
                     cols[col] = ('keep', old_col)
         expected[table] = {'rename_from': old_table, 'columns': cols,
